@@ -188,6 +188,14 @@ Fixpoint items_code (ms : list (option response)) (its : list oitem) : N :=
   | _, _ => 1
   end%N.
 
+(* the lexer-oracle hypothesis of the theorems, checked on every case: an array tree's body starts, after
+   JSON whitespace, with '[' *)
+Definition coherent_b (body : bytes) (v : verdict) : bool :=
+  match v with
+  | Tree (JArr _) => match skip_json_ws body with c :: _ => byte_eqb c open_bracket | [] => false end
+  | _ => true
+  end.
+
 Definition check_case (c : case) : N :=
   match c with
   | C16Case b dv dtable o =>
@@ -200,6 +208,7 @@ Definition check_case (c : case) : N :=
           if negb (obs_wf o) then 11
           else if negb (shape_ok v o) then 12
           else if negb (must_fail_ok table body v o) then 13
+          else if negb (coherent_b body v) then 9
           else
             match run_handler table body v with
             | Panic => 7
